@@ -48,4 +48,16 @@ Module Ex.
     | _ => False
     end.
   Proof. vm_compute. reflexivity. Qed.
+
+  (* designates, by hand, for the STRING token on the second line of: a, LF, two blanks, quote, bc *)
+  Example designates_string_line2 :
+    designates (dec_all (src "a") ++ [10%N] ++ dec_all (src "  ""bc"))%list
+               (mkTok T_STRING (s2r "bc") 2 3).
+  Proof.
+    unfold designates, is_eof. cbn [ttype tlit tline tpos].
+    change (str_eqb T_STRING T_EOF) with false.
+    change (str_eqb T_STRING T_CLOSE_LONG_STRING) with false.
+    change (str_eqb T_STRING T_STRING) with true. cbv beta iota.
+    exists (s2r "a" ++ [10%N] ++ s2r "  ")%list, []. split; vm_compute; reflexivity.
+  Qed.
 End Ex.
